@@ -13,11 +13,13 @@ def costs_of(res):
     return None if "exc" in res else res["ranking"]
 
 
-def meta_violation(ctx, what, db, variants, results):
+def meta_violation(ctx, what, db, variants, results, split=None):
     ctx.violations.append({
         "what": what,
         "replay": {"kind": "metamorphic", "db": db, "pipelines": variants, "impl_results": results,
-                   "how": "Recommendations(db).run_pipeline(pipeline) for each pipeline: results must be equal"},
+                   "one_call_per_command": split or [False] * len(variants),
+                   "how": "Recommendations(db).run_pipeline(pipeline) for each pipeline (one call per command on the same "
+                          "recommender where one_call_per_command says so): results must be equal"},
     })
 
 
@@ -51,6 +53,15 @@ def run(ctx):
                         meta_violation(ctx, "not monotone", db, [cmds], [base["steps"]])
                         break
                     prev = st
+            # the same commands handed over one run_pipeline call at a time, on one recommender
+            one_by_one = filt.run_real(db, cmds, split=True)
+            ctx.count("permutations+monotone", repr((sorted(db["programs"]), "split", cmds)), nontrivial=filt.nontrivial(base, db))
+            if not ((("exc" in base) == ("exc" in one_by_one)) and sets_of(base) == sets_of(one_by_one) and costs_of(base) == costs_of(one_by_one)):
+                meta_violation(ctx, "result differs when the commands are given one run_pipeline call at a time to the same recommender",
+                               db, [cmds, cmds],
+                               [base if "exc" in base else {"final": base["final"], "ranking": base["ranking"]},
+                                one_by_one if "exc" in one_by_one else {"final": one_by_one["final"], "ranking": one_by_one["ranking"]}],
+                               split=[False, True])
             # order independence: permutations give the same sets and the same costs
             for _ in range(3):
                 perm = list(cmds)
@@ -188,7 +199,9 @@ def replay(ctx, path):
     obj = json.load(open(path, encoding="utf-8"))
     if obj.get("kind") == "metamorphic":
         core.import_repo()
-        for p in obj["pipelines"]:
-            print(json.dumps(p, ensure_ascii=False), "->", json.dumps(filt.run_real(obj["db"], p), ensure_ascii=False)[:600])
+        splits = obj.get("one_call_per_command") or [False] * len(obj["pipelines"])
+        for p, sp in zip(obj["pipelines"], splits):
+            print(json.dumps(p, ensure_ascii=False), "(one call per command)" if sp else "", "->",
+                  json.dumps(filt.run_real(obj["db"], p, split=sp), ensure_ascii=False)[:600])
         return 0
     return filt.replay(ctx, path)
